@@ -749,7 +749,7 @@ where
     probe.peer = peer;
     announce();
     let out = match &spec.spawn {
-        SpawnSpec::Spawn | SpawnSpec::Register { builder: None } => a(probe.spawn()),
+        SpawnSpec::Spawn | SpawnSpec::Register { builder: None, .. } => a(probe.spawn()),
         SpawnSpec::SpawnOwning => o(Spawnable::spawn_owning(probe)),
         SpawnSpec::SpawnDefault => {
             drop(probe);
@@ -759,7 +759,7 @@ where
             drop(probe);
             o(<Probe<K> as DefaultSpawnable<TokioSpawner>>::spawn_owning().expect("spawn_owning"))
         }
-        SpawnSpec::Register { builder: Some(m) } => match m {
+        SpawnSpec::Register { builder: Some(m), .. } => match m {
             Mailbox::Unbounded => a(hannibal::build(probe).unbounded().spawn()),
             Mailbox::Bounded(n) => a(hannibal::build(probe).bounded(*n as usize).spawn()),
         },
@@ -856,10 +856,16 @@ pub struct Announced<F> {
 impl<F: std::future::Future> std::future::Future for Announced<F> {
     type Output = F::Output;
     fn poll(mut self: std::pin::Pin<&mut Self>, cx: &mut std::task::Context<'_>) -> std::task::Poll<F::Output> {
-        if let Some(t) = self.tag.take() {
+        // the spawn may happen in any poll (a terminal that registers before it spawns): offer the tag
+        // during every poll until a spawn has taken it
+        if let Some(t) = self.tag {
             with_case(|c| c.sim.announce(t));
             let r = self.f.as_mut().poll(cx);
-            with_case(|c| c.sim.clear_announce());
+            if with_case(|c| c.sim.peek_announce()).is_none() {
+                self.tag = None;
+            } else {
+                with_case(|c| c.sim.clear_announce());
+            }
             r
         } else {
             self.f.as_mut().poll(cx)
@@ -869,15 +875,19 @@ impl<F: std::future::Future> std::future::Future for Announced<F> {
 
 /// the builder's own `register()` terminal: spawns the actor and registers it in one call; when the
 /// registration is refused the only handle is dropped inside the library and the fresh actor ends
-pub async fn register_via_builder<const K: u8>(actor: ActorId, beh: Arc<Behavior>, mailbox: Mailbox) -> Result<(Addr<Probe<K>>, Option<Addr<Probe<K>>>), String>
+pub async fn register_via_builder<const K: u8>(actor: ActorId, beh: Arc<Behavior>, mailbox: Mailbox, timeout: Option<(u32, bool)>) -> Result<(Addr<Probe<K>>, Option<Addr<Probe<K>>>), String>
 where
     Probe<K>: Wrap,
 {
     let probe = Probe::<K>::new(actor, beh, None);
     let tag = Some(TaskTag::Actor(actor));
+    let base = match timeout {
+        Some((t, f)) => hannibal::build(probe).timeout(Duration::from_millis(t as u64)).fail_on_timeout(f),
+        None => hannibal::build(probe),
+    };
     let r = match mailbox {
-        Mailbox::Unbounded => Announced { f: Box::pin(hannibal::build(probe).unbounded().register()), tag }.await,
-        Mailbox::Bounded(n) => Announced { f: Box::pin(hannibal::build(probe).bounded(n as usize).register()), tag }.await,
+        Mailbox::Unbounded => Announced { f: Box::pin(base.unbounded().register()), tag }.await,
+        Mailbox::Bounded(n) => Announced { f: Box::pin(base.bounded(n as usize).register()), tag }.await,
     };
     r.map_err(|e| format!("{e:?}"))
 }
